@@ -151,6 +151,14 @@ def explore(ctx):
                     "openTypeGaspRangeRecords": [{"rangeMaxPPEM": 65535, "rangeGaspBehavior": [0, 1]}]}
             vf_info = [{k: v for k, v in pool.items() if rng.random() < 0.6} for _ in range(rng.choice([1, 2]))]
         ds, fonts, masters = dsgen.family(rng, n, lib, vf_info=vf_info)
+        # source descriptors as a program builds them in memory: unnamed, or sharing a name
+        nm = rng.random()
+        if nm < 0.3:
+            for sdesc in ds.sources:
+                sdesc.name = None
+        elif nm < 0.4:
+            for sdesc in ds.sources:
+                sdesc.name = "master"
         opts = {}
         if rng.random() < 0.3 and fn.startswith("compileVariable"):
             opts["variableFeatures"] = rng.random() < 0.5
